@@ -330,3 +330,94 @@ def point_validation(vc):
     else:
         vc.prove("rejected=>out-of-range-or-off-curve", vc.Not(want) if vc.symbolic else not want)
         vc.cover("rejected")
+
+
+# ---------------------------------------------------------------------------------------
+# hybrid point strings (X9.62 4.3.6): 06 || x || y with y even, 07 || x || y with y odd; anything else is inconsistent
+# and rejected (OpenSSL: EC_R_INVALID_ENCODING), so that decode . encode is the identity on accepted strings.
+
+def fam_hybrid(seed, tier):
+    import random
+    rnd = random.Random(seed)
+    for n in (24, 32, 66):
+        for _ in range(6):
+            body = bytes(rnd.randrange(256) for _ in range(2 * n))
+            for pre in (6, 7):
+                yield dict(n=n, pre=pre, body=body, validate=True)
+            yield dict(n=n, pre=rnd.choice([6, 7]), body=body, validate=False)
+
+
+@proof("C19/AbstractPoint._from_hybrid", functions=[("register_crypto_plugin.ecdsa.ellipticcurve", "AbstractPoint._from_hybrid"),
+                                                    ("register_crypto_plugin.ecdsa.ellipticcurve", "AbstractPoint._from_raw_encoding")],
+       family=fam_hybrid)
+def from_hybrid(vc):
+    EL = vc.module("register_crypto_plugin.ecdsa.ellipticcurve")
+    n = vc.choice("n", [24, 32, 66])
+    pre = vc.choice("pre", [6, 7])
+    validate = vc.bool("validate")
+    body = vc.bytes("body", 2 * n)
+    data = vc.cat(bytes([pre]), body)
+    out = vc.call(EL.AbstractPoint._from_hybrid, data, 2 * n, validate)
+    ylast = body[2 * n - 1]
+    odd = (ylast % 2 == 1)
+    consistent = vc.Or(vc.Not(validate) if vc.symbolic else (not validate),
+                       vc.And(pre == 7, odd) if pre == 7 else vc.And(pre == 6, vc.Not(odd) if vc.symbolic else (not odd)))
+    if out.returned:
+        x, y = out.value
+        vc.prove("accepted=>prefix-matches-parity-of-y", consistent)
+        if vc.symbolic:
+            from pyvc import models
+            vc.prove("accepted=>x,y=the-two-halves", vc.And(x == models.IntModel.from_bytes(body[:n], "big"),
+                                                           y == models.IntModel.from_bytes(body[n:], "big")))
+        else:
+            vc.prove("accepted=>x,y=the-two-halves", x == int.from_bytes(body[:n], "big") and y == int.from_bytes(body[n:], "big"))
+        vc.cover("accepted")
+    else:
+        vc.prove("rejected=>MalformedPointError", out.raised(EL.MalformedPointError), repr(out.exc))
+        vc.prove("rejected=>inconsistent", vc.Not(consistent) if vc.symbolic else (not consistent))
+        vc.cover("rejected")
+
+
+@proof("C19/AbstractPoint._from_compressed", functions=[("register_crypto_plugin.ecdsa.ellipticcurve", "AbstractPoint._from_compressed")],
+       family=lambda seed, tier: [dict(curve=c, pre=pre, xs=x) for c in ("NIST192p", "NIST256p", "BRAINPOOLP160r1", "SECP112r2")
+                                  for pre in (2, 3) for x in (1, 2, 3, 5, 7, 11)])
+def from_compressed(vc):
+    """02 || x / 03 || x: the decoder returns the root of x^3 + ax + b with the parity the prefix states (02 even, 03 odd).
+    Symbolic mode: square_root_mod_prime seen through its contract (returns SOME root beta in [0, p), or raises
+    numbertheory.Error when there is none), so the parity selection is checked for both roots."""
+    EL = vc.module("register_crypto_plugin.ecdsa.ellipticcurve")
+    C = vc.module("register_crypto_plugin.ecdsa.curves")
+    NT = vc.module("register_crypto_plugin.ecdsa.numbertheory")
+    name = vc.choice("curve", ["NIST192p", "NIST256p", "BRAINPOOLP160r1", "SECP112r2"])
+    pre = vc.choice("pre", [2, 3])
+    cv = getattr(C, name).curve
+    p, a, b = cv.p(), cv.a(), cv.b()
+    n = (p.bit_length() + 7) // 8
+    if vc.symbolic:
+        xs = vc.bytes("xbytes", n)
+        beta = vc.int("beta", 0, p - 1)
+        exists = vc.bool("root_exists")
+
+        def sqrt_by_contract(alpha, pp):
+            if not exists:
+                raise NT.SquareRootError("no square root")
+            return beta
+        vc.patch(NT, "square_root_mod_prime", sqrt_by_contract)
+        vc.patch(EL.numbertheory, "square_root_mod_prime", sqrt_by_contract)
+        data = vc.cat(bytes([pre]), xs)
+    else:
+        x0 = vc._get("xs")
+        data = bytes([pre]) + x0.to_bytes(n, "big")
+    out = vc.call(EL.AbstractPoint._from_compressed, data, cv)
+    if out.returned:
+        x, y = out.value
+        vc.prove("accepted=>parity-of-y-matches-the-prefix", (y % 2 == 0) if pre == 2 else (y % 2 == 1))
+        if vc.symbolic:
+            vc.prove("accepted=>y-is-a-root(beta-or-p-beta)", vc.Or(y == beta, y == p - beta))
+        else:
+            vc.prove("accepted=>on-curve", (y * y - (x * x * x + a * x + b)) % p == 0 and 0 <= y < p)
+        vc.cover("accepted")
+    else:
+        vc.prove("rejected=>MalformedPointError", out.raised(EL.MalformedPointError), repr(out.exc))
+        if vc.symbolic:
+            vc.prove("rejected=>no-root", vc.Not(exists))
